@@ -232,10 +232,16 @@ fn check_decl(spec: &str, obs: &mut Obs) {
             Some(t) => {
                 // a valid width may be rejected with a designator diagnostic (not demanded), but
                 // never recorded as another type silently
+                // (only the two spellings for which the analyser records no constant value today -
+                // a const initialised by an expression or by a literal of exactly its own type - may
+                // be rejected with a designator diagnostic; every other valid width must be recorded)
                 if !designator_diag {
                     obs.violate(cell("recorded-type-differs"), format!("{src:?}: symbol type {t:?}, declared {want:?}, diagnostics {kinds:?}"));
+                } else if !matches!(wform, "const-expr" | "const-int128") {
+                    obs.violate(cell("valid-width-rejected"), format!("{src:?}: symbol type {t:?}, declared {want:?}, diagnostics {kinds:?}"));
                 } else {
                     obs.count("valid-width-rejected-with-diagnostic(not demanded)");
+                    obs.count(&format!("rejected:{form}/{base}/{wform}/{}", if w == 0 { "0".to_string() } else if w > 128 { ">128".to_string() } else { "1..128".to_string() }));
                 }
             }
         }
@@ -362,6 +368,59 @@ fn check_gate_collision(name_ix: usize, np: usize, nq: usize, obs: &mut Obs) {
     }
     obs.class("gate-signature");
     obs.done(true);
+}
+
+/// A designator identifier resolves like any other use: to the innermost visible declaration, also
+/// two scopes below it and also when the global scope has a const of the same name.
+/// `NS|<base>|<global width>|<inner width or "nonconst">|<scope pair>`
+fn check_nested_designator(spec: &str, obs: &mut Obs) {
+    let p: Vec<&str> = spec.split('|').collect();
+    let (base, wg, wi, pair) = (p[0], p[1], p[2], p[3]);
+    let inner_decl = if wi == "nonconst" { "uint nshadow = 8;".to_string() } else { format!("const uint nshadow = {wi};") };
+    let use_stmt = format!("{}[nshadow] sym_under_test;", base);
+    let body = match pair {
+        "def>if" => format!("def holder() {{ {inner_decl} if (true) {{ {use_stmt} }} }}"),
+        "def>while>if" => format!("def holder() {{ {inner_decl} while (true) {{ if (true) {{ {use_stmt} }} }} }}"),
+        "if>for" => format!("if (true) {{ {inner_decl} for int lv in [0:1] {{ {use_stmt} }} }}"),
+        "for-var>if" => format!("for uint nshadow in [0:3] {{ if (true) {{ {use_stmt} }} }}"),
+        _ => format!("if (true) {{ {inner_decl} if (true) {{ {use_stmt} }} }}"),
+    };
+    let src = format!("const uint nshadow = {wg};\n{body}\n");
+    obs.fp.str(&src);
+    let res = match analyse_text(&src) {
+        Ok(r) => r,
+        Err(_) => {
+            obs.inconclusive("analysis failed");
+            return;
+        }
+    };
+    let nonconst = wi == "nonconst" || pair == "for-var>if";
+    let cell = |clause: &str| format!("nested-designator/{base}/{pair}/{}/{clause}", if nonconst { "nonconst-shadow" } else { "const-shadow" });
+    let r = guard(|| {
+        let kinds: Vec<String> = res.semantic_errors().iter().map(diag_kind).collect();
+        (kinds, find_symbol(res.symbol_table(), "sym_under_test").cloned())
+    });
+    match r {
+        Err(p) => obs.inconclusive(format!("monitor panicked {}", p.site())),
+        Ok((kinds, ty)) => {
+            let diag = kinds.iter().any(|k| matches!(k.as_str(), "InvalidDesignatorError" | "ConstIntegerError"));
+            if nonconst {
+                // the innermost visible declaration is not a constant: must be diagnosed, and the
+                // global constant's value must not be recorded instead
+                if !diag {
+                    obs.violate(cell("nonconst-designator-not-diagnosed"), format!("{src:?}: diagnostics {kinds:?}, recorded {ty:?}"));
+                }
+            } else {
+                let want = expected_type(base, wi.parse::<u32>().ok(), false);
+                match ty {
+                    Some(t) if t == want => {}
+                    other => obs.violate(cell("recorded-type-differs"), format!("{src:?}: recorded {other:?}, the innermost visible `nshadow` gives {want:?}; diagnostics {kinds:?}")),
+                }
+            }
+            obs.class("valid-declaration");
+            obs.done(true);
+        }
+    }
 }
 
 fn check_def_sig(seed: u64, obs: &mut Obs) {
@@ -529,6 +588,12 @@ impl Property for C09 {
             // once with the library's arity, once with another one
             if i / n == 0 { format!("GC|{}|{a}|{b}", i % n) } else { format!("GC|{}|{}|{}", i % n, (a + 1) % 4, b % 3 + 1) }
         }));
+        v.push(Stream::new("designator-identifier-shadowed-two-scopes-up", 4 * 5 * 3, true, |i| {
+            let base = ["int", "uint", "float", "bit"][(i % 4) as usize];
+            let pair = ["def>if", "def>while>if", "if>for", "for-var>if", "if>if"][((i / 4) % 5) as usize];
+            let (wg, wi) = [("4", "8"), ("16", "2"), ("4", "nonconst")][(i / 20) as usize];
+            format!("NS|{base}|{wg}|{wi}|{pair}")
+        }));
         v.push(Stream::new("def-signatures", tier.pick(3_000, 100_000), false, move |i| format!("F|{}", mix(&[seed, 0xC09, 7, i]))));
         v
     }
@@ -538,6 +603,8 @@ impl Property for C09 {
         } else if let Some(rest) = input.strip_prefix("G|") {
             let p: Vec<usize> = rest.split('|').filter_map(|x| x.parse().ok()).collect();
             check_gate_sig(p[0], p[1], p[2] == 1, obs);
+        } else if let Some(rest) = input.strip_prefix("NS|") {
+            check_nested_designator(rest, obs);
         } else if let Some(rest) = input.strip_prefix("GC|") {
             let p: Vec<usize> = rest.split('|').filter_map(|x| x.parse().ok()).collect();
             check_gate_collision(p[0], p[1], p[2], obs);
